@@ -914,9 +914,25 @@ class Interp:
                         return rv
                     if k == 'drop':
                         v = self.read_place(cells, term[1])
+                        if (v is UNINIT or v is None) and isinstance(term[1], (tuple, list)) and len(term[1]) == 2 and not term[1][1]:
+                            # after drop elaboration a drop is only reached for an initialised place: a local that was never
+                            # written is a zero-sized value (unit struct guard, `debug g => const Guard`)
+                            lt = (body.locals.get(term[1][0]) or '').rsplit('::', 1)[-1]
+                            if lt in self.src.crate_types and any(ity == lt and itr == 'Drop' for (_, ity, itr, _) in self.by_method.get('drop', [])):
+                                v = Agg(lt, ())
+                                cells[term[1][0]].v = v
                         if v is not UNINIT and v is not None:
                             # a `Drop` impl written in the crate (RAII scope guards) runs before the fields are dropped
                             ty = getattr(v, 'ty', None) if isinstance(v, (Agg, Enum)) else None
+                            if ty is None or ty not in self.src.crate_types:
+                                # a unit struct (zero-sized guard) has no runtime shape here: use the declared type of the local
+                                pl = term[1]
+                                loc = pl if isinstance(pl, int) else (pl[0] if isinstance(pl, (tuple, list)) and len(pl) == 2 and not pl[1] and isinstance(pl[0], int) else None)
+                                lt = body.locals.get(loc) if loc is not None else None
+                                if lt is not None:
+                                    lt = lt.rsplit('::', 1)[-1]
+                                    if lt in self.src.crate_types:
+                                        ty = lt
                             if ty is not None and ty in self.src.crate_types:
                                 for (db, ity, itr, _) in self.by_method.get('drop', []):
                                     if ity == ty and itr == 'Drop':
